@@ -109,4 +109,7 @@ ImplMeetsPlan == Finished => <<run.v, run.res>> = DefaultPlan(cfg)
 DesignationSound ==
   (Finished /\ cfg.kind = "enum" /\ ~cfg.opts.dexpr) =>
      (cfg.variants[run.v].dflt \/ NVariants(cfg) = 1)
+\* corpus-only exploration (used where only the configurations are wanted, not the run machine): states in which a
+\* run has begun are not expanded
+CorpusOnly == run = NoRun
 =============================================================================
